@@ -12,7 +12,7 @@ use std::ffi::c_ulong;
 pub const INFO: CheckInfo = CheckInfo {
     prop: "C15",
     level: "model_checking",
-    rule: "invariant monitor on EVERY call of every execution of the shared (configuration x input x schedule) families (C API): next_in/next_out advance by exactly the bytes consumed/produced, avail_in/avail_out decrease by the same amounts without underflow, total_in/total_out equal the sums over all calls (+ preset-dictionary bytes for C-API deflate), Z_BUF_ERROR only when the call neither consumed nor produced (or Finish could not complete); each stream is decoded under three schedules with 0..3 trailing garbage bytes, where the consumed count must be exactly the stream length; the same chunkings through the Rust Deflate/Inflate wrappers (totals == sums of pointer differences); one-shot helpers compress/compress2/uncompress/uncompress2/compress_slice/decompress_slice report lengths equal to those totals, uncompress2 the compressed length excluding trailing bytes; explicit enumeration of inflate programs with inflateSync/reset/prime to depth 4 with totals compared with the sums after every call. distinct_nontrivial = distinct (compressed stream, per-call deltas) outcomes.",
+    rule: "invariant monitor on EVERY call of every execution of the shared (configuration x input x schedule) families (C API): next_in/next_out advance by exactly the bytes consumed/produced, avail_in/avail_out decrease by the same amounts without underflow, total_in/total_out equal the sums over all calls (+ preset-dictionary bytes for C-API deflate), Z_BUF_ERROR only when the call neither consumed nor produced (or Finish could not complete); each stream is decoded under three schedules with 0..3 trailing garbage bytes, where the consumed count must be exactly the stream length; the same chunkings through the Rust Deflate/Inflate wrappers (totals == sums of pointer differences); one-shot helpers compress/compress2/uncompress/uncompress2/compress_slice/decompress_slice report lengths equal to those totals, uncompress2 the compressed length excluding trailing bytes; explicit enumeration of inflate programs with inflateSync/reset/prime to depth 4 with totals compared with the sums after every call. Family uncompress-any-stream: uncompress / uncompress2 on every truncation, a bit-flip lattice, FDICT, wrong-wrapper and trailing-byte variants of six data sets into six destination sizes: (status, destLen, sourceLen, bytes) equal zlib-ng's and the totals of the equivalent single streaming call. distinct_nontrivial = distinct (compressed stream, per-call deltas) outcomes.",
     assumptions: &["histories outside the enumerated families are not covered", "running totals after Z_NEED_DICT are not judged (zlib is self-inconsistent there, see C16)"],
     bound_quick: "tiny + shape families (stride 5), 4 trailing-garbage lengths, Rust wrappers on 6 chunk sizes, sync programs depth 4",
     bound_thorough: "families stride 1, sync programs depth 5",
@@ -291,4 +291,99 @@ pub fn run(ctx: &mut Ctx) {
         );
     });
     sync_programs(ctx);
+    uncompress_any(ctx);
+}
+
+/// uncompress / uncompress2 on streams that are NOT a complete valid zlib stream: every truncation, bit flips, a preset
+/// dictionary request, the wrong wrapper, trailing bytes - into every interesting destination size. The lengths reported
+/// are the totals of the equivalent streaming run (one inflate(Z_NO_FLUSH) call over the same buffers) and equal the
+/// reference implementation's.
+fn uncompress_any(ctx: &mut Ctx) {
+    let ain = crate::mem::Arena::new(1 << 16);
+    let aout = crate::mem::Arena::new(1 << 16);
+    let quick = ctx.quick();
+    for ds in crate::checks::c16::datasets() {
+        if !matches!(ds.name, "zlib" | "zlib+fdict" | "gzip-plain" | "raw-too-far" | "empty" | "corrupt-zlib") {
+            continue;
+        }
+        let z = &ds.bytes;
+        let mut variants: Vec<(String, Vec<u8>)> = vec![("intact".into(), z.clone())];
+        for k in 0..z.len() {
+            variants.push((format!("truncate@{k}"), z[..k].to_vec()));
+        }
+        let mut bit = 0usize;
+        while bit < z.len() * 8 {
+            let mut v = z.clone();
+            v[bit / 8] ^= 1 << (bit % 8);
+            variants.push((format!("bitflip@{bit}"), v));
+            bit += if bit < 96 { 1 } else if quick { 29 } else { 5 };
+        }
+        for extra in 1..=3usize {
+            let mut v = z.clone();
+            v.extend(std::iter::repeat(0x78).take(extra));
+            variants.push((format!("+{extra} trailing bytes"), v));
+        }
+        let n = 400usize;
+        for (vn, bytes) in &variants {
+            for dest in [0usize, 1, 150, n - 1, n, n + 10] {
+                ctx.case(
+                    "uncompress-any-stream",
+                    || format!("uncompress2/uncompress(dest {dest} bytes) on data set {} {vn} ({} bytes)", ds.name, bytes.len()),
+                    |c| unsafe {
+                        let mut res: Vec<(i32, u64, u64, Vec<u8>, i32, u64)> = vec![];
+                        for which in 0..2 {
+                            let s = ain.put(bytes, true);
+                            let d = aout.at_end(dest);
+                            let mut dl: c_ulong = dest as _;
+                            let mut sl: c_ulong = bytes.len() as _;
+                            c.exec();
+                            let r = if which == 0 { Rs::uncompress2(d, &mut dl, s, &mut sl) } else { Ng::uncompress2(d, &mut dl, s, &mut sl) };
+                            if dl as usize > dest || sl as usize > bytes.len() {
+                                return Err(format!("{}: uncompress2 reports destLen {dl} of {dest}, sourceLen {sl} of {}", if which == 0 { "zlib-rs" } else { "zlib-ng" }, bytes.len()));
+                            }
+                            let got = std::slice::from_raw_parts(d, dl as usize).to_vec();
+                            let d1 = aout.at_end(dest);
+                            let mut dl1: c_ulong = dest as _;
+                            let r1 = if which == 0 { Rs::uncompress(d1, &mut dl1, s, bytes.len() as _) } else { Ng::uncompress(d1, &mut dl1, s, bytes.len() as _) };
+                            res.push((r, dl as u64, sl as u64, got, r1, dl1 as u64));
+                        }
+                        if res[0] != res[1] {
+                            return Err(format!("uncompress2: zlib-rs rc {} destLen {} sourceLen {}, uncompress rc {} destLen {}; zlib-ng rc {} destLen {} sourceLen {}, uncompress rc {} destLen {}; output bytes equal: {}", rc_name(res[0].0), res[0].1, res[0].2, rc_name(res[0].4), res[0].5, rc_name(res[1].0), res[1].1, res[1].2, rc_name(res[1].4), res[1].5, res[0].3 == res[1].3));
+                        }
+                        // the equivalent streaming run
+                        if dest > 0 {
+                            let mut st = Strm::plain();
+                            let r = Rs::inflateInit2_(st.p(), 15, Rs::zlibVersion(), STREAM_SIZE);
+                            if r != Z_OK {
+                                return Err(format!("inflateInit2 returned {}", rc_name(r)));
+                            }
+                            st.z.next_in = ain.put(bytes, true);
+                            st.z.avail_in = bytes.len() as u32;
+                            st.z.next_out = aout.at_end(dest);
+                            st.z.avail_out = dest as u32;
+                            let mut guard = 0;
+                            loop {
+                                let r = Rs::inflate(st.p(), Z_NO_FLUSH);
+                                guard += 1;
+                                if r != Z_OK || guard > 8 || st.z.avail_out == 0 {
+                                    break;
+                                }
+                            }
+                            let (ti, to) = (st.z.total_in as u64, st.z.total_out as u64);
+                            Rs::inflateEnd(st.p());
+                            // with a full destination the helper probes for more data with a one-byte buffer: it may
+                            // consume further input (never less than the streaming run)
+                            let full = to as usize == dest;
+                            if res[0].1 != to || (if full { res[0].2 < ti } else { res[0].2 != ti }) {
+                                return Err(format!("uncompress2 reports destLen {} sourceLen {} (rc {}), the streaming run over the same buffers has total_out {to} total_in {ti}", res[0].1, res[0].2, rc_name(res[0].0)));
+                            }
+                        }
+                        c.outcome(crate::engine::hash_bytes(&res[0].3) ^ (res[0].0 as u64) << 40 ^ res[0].2 << 20 ^ res[0].1);
+                        c.validated();
+                        Ok(())
+                    },
+                );
+            }
+        }
+    }
 }
